@@ -715,7 +715,7 @@ def array_ufunc(ufunc, method, inputs, out, kwargs):
         if ufunc is np.matmul:
             r = _matmul(pin[0], pin[1])
             if MATMUL_HOOK[0] is not None and isinstance(r, np.ndarray):
-                r = MATMUL_HOOK[0](r)
+                r = MATMUL_HOOK[0](r, pin[0], pin[1])
             return _apply_shadow(r, shadow_dtype(ufunc, inputs, {})) if isinstance(r, np.ndarray) else r
         kw = {k: v for k, v in kwargs.items() if k not in ('dtype', 'casting')}
         dt = kwargs.get('dtype')
